@@ -126,6 +126,10 @@ func (r *Reporter) Finish() int {
 	}
 	sort.Strings(kn)
 	cov["known_findings_hit"] = kn
+	if r.Assumptions == nil {
+		r.Assumptions = []string{}
+	}
+	r.Assumptions = append(r.Assumptions, "the harness' reference model and oracles are trusted; every violation is replayed before it is reported")
 	evd := map[string]interface{}{
 		"property_id": r.ID,
 		"tier":        r.Tier,
